@@ -115,6 +115,10 @@ class G:
       self.af_depth2 = True
     if rng.random() < 0.3:
       return gen.B('ArgFactory', kinds.fresh)       # a factory without any argument
+    if rng.random() < 0.15:
+      # a factory whose bound arguments are ALL positional (variadic)
+      return gen.B('ArgFactory', kinds.fresh_scaled,
+                   pos=[gen.Leaf(Sentinel(next(self.cnt))) for _ in range(rng.choice([1, 2]))])
     n = gen.B('ArgFactory', rng.choice(UID_FNS[:2] + [kinds.maybe_fail, kinds.slow_node]),
               kw={'uid': self.uid()})
     for k in rng.sample(['a', 'b'], rng.randint(0, 2)):
@@ -191,6 +195,11 @@ def verify(node, v, ctx: Ctx, call_k, in_af):
       same_object(node, v, ctx, 'config')
     else:
       fresh_object(node, v, ctx, call_k, 'argfactory')
+    if node.fn is kinds.fresh_scaled:
+      ctx.acc.obs('positional_only_factory_checked')
+      got = v.bound.get('scales', ())
+      if len(got) != len(node.pos) or any(g is not c.value for g, c in zip(got, node.pos)):
+        ctx.bad('factory-positional-arguments-differ', f'expected {[c.value for c in node.pos]}, got {got!r}')
     for k, c in node.kw.items():
       if k != 'uid':
         verify(c, v.bound[k], ctx, call_k, in_af or node.btype == 'ArgFactory')
@@ -243,6 +252,7 @@ def fresh_object(node, v, ctx, call_k, what):
   lst.append((call_k, v))
 
 
+NOUID_FACTORIES = (kinds.fresh, kinds.fresh_scaled)
 POSONLY_VA = [f for f in sigs.ALL if sigs.SHAPES[f.__name__]['pk'] == 0 and sigs.SHAPES[f.__name__]['po'] >= 1
               and sigs.SHAPES[f.__name__]['dpos'] >= 1 and sigs.SHAPES[f.__name__]['ko'] == 0
               and not sigs.SHAPES[f.__name__]['vk']]
@@ -349,7 +359,7 @@ def run_case(rng, acc):
       return
   built_uids = [rec_uid(r) for _, _, _, r in tr.calls()]
   exp_uids = sorted(gen.uid_of(n) for n in config_nodes)
-  if any(getattr(r, 'fn', None) == 'fresh' for _, _, _, r in tr.calls()):
+  if any(getattr(r, 'fn', None) in ('fresh', 'fresh_scaled') for _, _, _, r in tr.calls()):
     acc.violation('factory-evaluated-at-build-time', 'an argument-less ArgFactory was invoked '
                   'during build', witness())
     return
@@ -433,9 +443,9 @@ def run_case(rng, acc):
     # factories: exactly once per call for every factory not under an overridden parameter
     skip = {n.uid for n in overridden_af}
     expected_af = sorted(gen.uid_of(n) for n in af_top
-                         if n.uid not in skip and n.fn is not kinds.fresh)
-    expected_fresh = sum(1 for n in af_top if n.uid not in skip and n.fn is kinds.fresh)
-    got_fresh = sum(1 for _, _, _, r in trc.calls() if getattr(r, 'fn', None) == 'fresh')
+                         if n.uid not in skip and n.fn not in NOUID_FACTORIES)
+    expected_fresh = sum(1 for n in af_top if n.uid not in skip and n.fn in NOUID_FACTORIES)
+    got_fresh = sum(1 for _, _, _, r in trc.calls() if getattr(r, 'fn', None) in ('fresh', 'fresh_scaled'))
     if got_fresh != expected_fresh:
       ctx.bad('factory-not-run' if got_fresh < expected_fresh else 'factory-run-too-often',
               f'call {k}: {got_fresh} argument-less factory invocations, expected {expected_fresh}')
